@@ -101,7 +101,9 @@ Proof.
 Qed.
 
 (* ---- no stuck state (as long as the request line is inside the URL model) ---- *)
-Definition NS (s : st) : Prop := closing s = true \/ timer s = TArmed \/ pending s <> [].
+(* armed only while the request is incomplete *)
+Definition NS (s : st) : Prop :=
+  closing s = true \/ (timer s = TArmed /\ (line_rcvd s = false \/ await_titan s = true)) \/ pending s <> [].
 Definition AB (s : st) : Prop := closing s = true \/ pending s <> [].
 
 Lemma send_closing s r : sent s = closing s -> tr s = true -> closing (fst (send_response s r)) = true.
@@ -153,7 +155,8 @@ Qed.
 
 Lemma NS_htu s line : sent s = closing s -> tr s = true ->
   existsb is_oom (snd (handle_titan_url s line)) = false ->
-  AB (fst (handle_titan_url s line)) \/ timer (fst (handle_titan_url s line)) = timer s.
+  AB (fst (handle_titan_url s line)) \/
+  (timer (fst (handle_titan_url s line)) = timer s /\ await_titan (fst (handle_titan_url s line)) = true).
 Proof.
   intros I T. unfold ServerProto.handle_titan_url.
   destruct (negb has_upload) eqn:Eu;
@@ -162,7 +165,7 @@ Proof.
   - intros _. fold (set_titan s t). set (s1 := set_titan s t).
     destruct (N.eqb (t_size t) 0).
     + left. apply AB_ptu; rewrite cancel_timer_eq; assumption.
-    + destruct (N.leb _ _); [|right; reflexivity].
+    + destruct (N.leb _ _); [|right; split; reflexivity].
       left. apply AB_ptu; rewrite cancel_timer_eq; assumption.
   - intros _. left; left. rewrite send_error_eq; apply send_closing; assumption.
   - cbn. discriminate.
@@ -181,29 +184,32 @@ Qed.
 Lemma NS_data_received s d : Inv s -> tr s = true ->
   existsb is_oom (snd (data_received s d)) = false -> NS s -> NS (fst (data_received s d)).
 Proof.
-  intros I T O [C|[A|P]].
+  intros I T O [C|[[A PH]|P]].
   - left. eapply closing_mono; [exact I|apply Inv_data_received; exact I| |exact C].
     apply (e_closes _ _ _ (Eff_data_received ip6 handler has_mw has_upload peer_ip peer_fp s d)).
   - revert O. pose proof (i_sent _ _ I) as SC. unfold ServerProto.data_received.
     set (s1 := set_buf s (buf s ++ d) (line_rcvd s)).
     assert (SC1 : sent s1 = closing s1) by exact SC. assert (T1 : tr s1 = true) by exact T.
     assert (A1 : timer s1 = TArmed) by exact A.
-    destruct (negb (line_rcvd s1)).
-    + destruct (break_crlf (buf s1)) as [[line rest]|].
+    change (line_rcvd s1) with (line_rcvd s). change (await_titan s1) with (await_titan s).
+    destruct (line_rcvd s) eqn:L; cbn [negb].
+    + destruct PH as [PH|PH]; [discriminate|]. rewrite PH.
+      assert (K : NS s1) by (right; left; split; [exact A|right; exact PH]).
+      destruct (titan s1); [|intros _; exact K].
+      destruct (N.leb _ _); [|intros _; exact K].
+      intros _. apply AB_NS, AB_ptu; cbn [sent closing tr set_content]; rewrite cancel_timer_eq; assumption.
+    + assert (K : NS s1) by (right; left; split; [exact A|left; reflexivity]).
+      destruct (break_crlf (buf s1)) as [[line rest]|].
       * destruct (N.ltb 1024 _); [intros _; left; rewrite send_error_eq; apply send_closing; assumption|].
         set (s2 := set_buf s1 rest true).
         destruct (decode line) as [url|];
           [|intros _; left; rewrite send_error_eq; apply send_closing; assumption].
         destruct (prefixb titan_prefix url).
-        -- intro O. destruct (NS_htu s2 url SC1 T1 O) as [H|H]; [apply AB_NS, H|].
-           right; left. rewrite H. exact A.
+        -- intro O. destruct (NS_htu s2 url SC1 T1 O) as [H|[H1 H2]]; [apply AB_NS, H|].
+           right; left. split; [rewrite H1; exact A|right; exact H2].
         -- intro O. apply AB_NS, AB_handle_gemini; try assumption; rewrite cancel_timer_eq; assumption.
       * destruct (N.ltb 1024 _); [intros _; left; rewrite send_error_eq; apply send_closing; assumption|].
-        intros _. right; left; exact A.
-    + destruct (await_titan s1); [|intros _; right; left; exact A].
-      destruct (titan s1); [|intros _; right; left; exact A].
-      destruct (N.leb _ _); [|intros _; right; left; exact A].
-      intros _. apply AB_NS, AB_ptu; cbn [sent closing tr set_content]; rewrite cancel_timer_eq; assumption.
+        intros _. exact K.
   - destruct (i_pend _ _ I P) as [L W]. rewrite (trailing_ignored_gen s d L W). right; right. exact P.
 Qed.
 
@@ -261,9 +267,11 @@ Theorem no_stuck_partial_gen evs :
   existsb (fun a => match a with AOutOfModel => true | _ => false end) (flat (run init evs)) = false ->
   let s := final init evs in closing s = true \/ timer s = TArmed \/ pending s <> [].
 Proof.
-  intros L O. apply NS_final; auto.
-  - apply Inv_init.
-  - right; left; reflexivity.
+  intros L O. assert (H : NS (final init evs)).
+  { apply NS_final; auto.
+    - apply Inv_init.
+    - right; left; split; [reflexivity|left; reflexivity]. }
+  destruct H as [H|[[H _]|H]]; auto.
 Qed.
 
 (* ================= started => timer not armed ================= *)
